@@ -163,13 +163,24 @@ var paramRe = regexp.MustCompile(`\$[0-9]`)
 // classifyLiteBackend judges a Lite route backend (host or host:port).
 func classifyLiteBackend(s string) verdict {
 	if paramRe.MatchString(s) {
-		return silent // "$1.servers.svc:25565": only decidable after substitution
+		// "$1.servers.svc:25565" is the documented use: fine if it is host[:port]-shaped once the
+		// parameters are filled in; anything else is only decidable after substitution.
+		if classifyLiteBackend(regexp.MustCompile(`\$[0-9]+`).ReplaceAllString(s, "x")) == ok {
+			return ok
+		}
+		return silent
 	}
 	if s == "" || s != strings.TrimSpace(s) || strings.ContainsAny(s, " \t\n") {
 		return silent
 	}
 	if strings.HasPrefix(s, "[") {
-		return classifyHostPort(s)
+		if !strings.Contains(s, "]") {
+			return broken // unclosed bracket
+		}
+		if v := classifyHostPort(s); v == ok {
+			return ok
+		}
+		return silent // "[::1]" without port is a host; trailing garbage is not documented either way
 	}
 	switch strings.Count(s, ":") {
 	case 0:
